@@ -9,6 +9,7 @@ import numpy as np
 
 import geom
 import implrun as R
+import rotcheck as RC
 import spatial as S
 
 
@@ -138,6 +139,26 @@ def check_crop_and_pad_keep(case, viol):
             return
 
 
+def check_rotation(case, viol):
+    try:
+        res = RC.run_case(case)
+    except Exception as e:  # noqa
+        viol.append({'site': 'C03:free-rotation:raises', 'kind': 'rotation', 'case': case,
+                     'observed': '%s: %s' % (type(e).__name__, e), 'expected': 'no exception'})
+        return
+    for kind, what, obs, exp in res or []:
+        if kind == 'box':
+            continue
+        if kind == 'keypoint':
+            site = 'C03:free-rotation:position:%s' % ('xy' if case['plane'] == 'xy' else 'planes-with-z')
+        elif kind == 'angle':
+            site = 'C03:free-rotation:angle-sense'
+        else:
+            site = 'C03:free-rotation:%s' % kind
+        viol.append({'site': site, 'kind': 'rotation', 'case': case, 'observed': obs, 'expected': exp})
+        return
+
+
 def gen_case(rng):
     shape = S.random_shape(rng)
     return {'shape': list(shape), 'keypoints': S.random_kps(rng, shape), 'seed': rng.randint(0, 10 ** 6)}
@@ -183,13 +204,21 @@ def run(seed=0, tier='quick', hints=None, broken=False):
         check_crop_and_pad_keep(case, viol)
         evals += 1
         seen.add(('CropAndPad-keep', tuple(axes)))
+    # free rotations (Rotate, ShiftScaleRotate): annotations vs the affine map fitted to marked voxels
+    for _ in range(n * 2):
+        case = RC.gen_case(rng)
+        check_rotation(case, viol)
+        evals += 1
+        seen.add(('rotation', case['cls'], case['plane']))
     return {'violations': viol, 'info': {'evaluations': evals, 'distinct': len(seen),
-                                         'what': 'keypoint path vs voxel path (lattice map derived from labelled volume)'}}
+                                         'what': 'keypoint path vs voxel path (lattice map derived from labelled volume; affine fit for free rotations)'}}
 
 
 def replay(v):
     viol = []
-    if v.get('kind') == 'croppad':
+    if v.get('kind') == 'rotation':
+        check_rotation(v['case'], viol)
+    elif v.get('kind') == 'croppad':
         check_crop_and_pad_keep(v['case'], viol)
     elif v.get('kind') == 'resample':
         check_resample(v['name'], v['pipeline'][0], v['case'], viol)
